@@ -76,7 +76,7 @@ PROFILES = {
     "C14": {"invalid": 0.3, "reupload": 16, "put": 40, "grammar": 0.65, "ctparams": 0.6, "otherfiles": 0.15},
     "C15": {"proppatch": 45, "restart": 8, "mk": 6, "delcoll": 3, "put": 12, "propheavy": True, "propsingle": 0.4},
     "C16": {"mk": 8, "delcoll": 5, "post": 10},
-    "C17": {"multiget": 22, "delete": 12, "external": 0.1},
+    "C17": {"multiget": 22, "delete": 12, "external": 0.15},
 }
 
 
@@ -169,16 +169,19 @@ def first_uid_of(data):
     return alpha.unescape_text(u) if u else ""
 
 
-def run_witness_session(steps, frontend="wsgi", prefix="/", backend="tree", principal="/user/"):
+def run_witness_session(steps, frontend="wsgi", prefix="/", backend="tree", principal="/user/", audit_git=True):
     """An explicit history (the witness of a listed finding): steps are [method name, args...]
     of DavSession, e.g. ["mk", "cal1", "calendar"], ["propupdate", "cal1", [["displayname", "x"]]]."""
-    s = DavSession(frontend=frontend, prefix=prefix, backend=backend, principal=principal)
+    s = DavSession(frontend=frontend, prefix=prefix, backend=backend, principal=principal, audit_git=audit_git)
     try:
         for st in steps:
             args = list(st[1:])
+            kwargs = args.pop() if args and isinstance(args[-1], dict) else {}
+            args = [gamma.model_body(int(a.split(":")[1]))[0] if isinstance(a, str) and a.startswith("@model:") else a
+                    for a in args]
             if st[0] == "propupdate":
                 args[1] = [tuple(x) for x in args[1]]
-            getattr(s, st[0])(*args)
+            getattr(s, st[0])(*args, **kwargs)
         return s.trace(0), s.concrete
     finally:
         s.close()
@@ -263,6 +266,9 @@ def run_random_session(seed, prof, frontend="wsgi", prefix="/", backend="tree", 
                 s.put(c, n, data, ct=ct, im=im, inm=inm, valid=valid, fault=fault,
                       chunked=(not ext and rng.random() < 0.2), external=ext,
                       segmented=(not ext and rng.random() < 0.2))
+                if ext:
+                    # what the long-lived server reports for a member another process wrote
+                    s.multiget(c, [("live", n)])
             elif op == "post":
                 usevcf = c == "ab1"
                 data, valid = rng.choice(vcf if usevcf else ics)
